@@ -235,6 +235,7 @@ func lmtpRun(rng *rand.Rand, lc lmtpCase, emit func(*Sx)) {
 		}
 	}
 	raws = append(raws, Raw{Kind: RawEOF})
+	cfg.Timeouts = nextTimeouts()
 	sx := RunConv(ConvCase{Cfg: cfg, Script: b.script, Phases: [][]Raw{raws}})
 	// describes the shape of the conversation for the C13 oracle (see CheckLmtpConv.v)
 	nchunks := 0
